@@ -48,6 +48,7 @@ def check(repo: Repo, R) -> None:
     c18_ = __import__("hsa.rules.c18", fromlist=["x"])
     R.run(c18_.check, repo, shared.Retag(R, lambda r, k: "C07.3-freeze" if r.startswith("C18.7") or (r.startswith("C18.4") and k.endswith("freeze-guard")) else None,
                                    "a definition that was elaborated accepts additions — or is changed by the very call that refuses one (the holder of the name is evicted before the refusal): exporting the same design again gives another package"))
+    R.run(every_child_visited, repo, R)
     R.floor("C07.1-snapshot-before-flattening", 2)
     R.floor("C07.2-bundled-vs-flattened-io", 2)
     R.floor("C07.3-freeze", 3)
@@ -353,3 +354,40 @@ def cache_ownership(repo: Repo, R):
     ok = isinstance(first, ast.If) and ast.unparse(first.test).endswith("in self.CLASS_LEVEL_CACHE.done") and isinstance(first.body[-1], ast.Return) and ast.unparse(first.body[-1].value) == emb.node.args.args[1].arg
     R.check(ok, rule, key_of(emb, "done-short-circuit"), emb.site, f"a module already completed by this pass is returned unchanged, first thing: {ok}",
             why="re-elaborating re-runs in-place passes on already rewritten modules")
+
+
+def every_child_visited(repo: Repo, R):
+    """A pass reaches a module through whoever instantiates it: the traversal descends through every kind of instance a
+    module can hold — the kinds are read off Module._add — before it runs on the module itself."""
+    rule = "C07.8-traversal-reaches-every-child"
+    fa = repo.func(F_MODULE, "_add")
+    marg, varg = fa.node.args.args[0].arg, fa.node.args.args[1].arg
+    inst_classes = {c.name for c in repo.classes_in(F_INSTANCE)}
+    conts = {}
+    for st in au.walk_no_nested(fa.node):
+        if isinstance(st, ast.Assign) and len(st.targets) == 1 and isinstance(st.value, ast.Attribute) and ast.unparse(st.value.value) == marg:
+            for k in shared.admissible_kinds(fa.node, st, varg, inst_classes) - {"<other>"}:
+                if len(shared.admissible_kinds(fa.node, st, varg, inst_classes) - {"<other>"}) == 1:
+                    conts[k] = st.value.attr
+    if len(conts) < 3:
+        raise AnalysisError(f"idiom-unknown: instance-like containers of Module read off {fa.site}: {conts}")
+    emb = repo.func(F_BASE, "ElabPass.elaborate_module_base")
+    mp = emb.node.args.args[1].arg
+    run = [c for c in au.calls_in(emb.node) if ast.unparse(c.func) == "self.elaborate_module"]
+    if len(run) < 1:
+        raise AnalysisError(f"idiom-unknown: {emb.site} does not call self.elaborate_module")
+    visited = set()
+    for lp in au.walk_no_nested(emb.node):
+        if not isinstance(lp, ast.For):
+            continue
+        tv = ast.unparse(lp.target)
+        calls = [c for c in au.calls_in(lp) if ast.unparse(c.func) == "self.elaborate_instance_base" and c.args and ast.unparse(c.args[0]) == tv]
+        if not calls or any(isinstance(x, (ast.Break, ast.Continue)) for x in ast.walk(lp)) or any(shared.path_conditions(lp, c) for c in calls):
+            continue
+        if not all(shared.precedes(emb.node, lp, r_) for r_ in run):
+            continue
+        it = ast.unparse(au.expand(lp.iter, au.local_env(emb.node), depth=3))
+        visited |= {a for a in conts.values() if f"{mp}.{a}" in it}
+    missing = sorted(set(conts.values()) - visited)
+    R.check(not missing, rule, key_of(emb), emb.site, f"before a pass runs on a module it has visited the targets of all its {sorted(conts.values())}" + (f" — NOT of {missing}" if missing else ""),
+            why="a module reached only through an instance bundle (a Pair of modules that hold Pairs) is never visited by the early passes: its own instance bundles are silently dropped from the package — unless it was elaborated earlier")
